@@ -177,6 +177,10 @@ func (g *gen) funcSpec(si symInfo) *FuncSpec {
 	case 0:
 		f.Kind = "fixed"
 		f.Fixed = vk.Pick(r, []string{"foo", "bar baz", "two\nlines", "x"})
+		if p.Lang {
+			// ordinary values that happen to spell a language code (a yes/no answer, a count)
+			f.Fixed = vk.Pick(r, []string{"foo", "bar baz", "two\nlines", "x", "no", "bar", "one", "two", "yes"})
+		}
 	case 1:
 		if p.EmptyResults {
 			f.Kind = "len"
